@@ -19,3 +19,12 @@ def init_setting(lengths, cubic=False, beta=1.0, roots=2, per_root=1, levels=Non
     setting.set_number_of_nodes_per_root_node(per_root)
     setting.set_number_of_node_levels(levels if levels is not None else (1 if per_root == 1 else 2))
     return setting
+
+
+def deterministic_cell_order():
+    """Cell objects are hashed by address, so the iteration order of the sets returned by nearby_cells() -- and with it
+    the order in which the activator hands out event handlers -- differs from one build of a mediator to the next.
+    The order is unspecified by the code; the harness pins it (hash by cell identifier) where two separately built
+    mediators must be compared event handler by event handler (C20)."""
+    from jellyfysh.activator.internal_state.cell_occupancy.cells.cells import Cell
+    Cell.__hash__ = lambda self: hash(self.identifier)
